@@ -7,12 +7,15 @@ import Gen.C15
 
 Vocabulary (all from `Model.KVExec`, the definitions the driver `drv_C15` executes):
 `run ops` is the executor state after a history of `init / exec txs / final h / inject tx / getTxs /
-reopen` calls on a fresh executor, `root` is `computeStateRoot`, `executeTxs`, `initChain` are the
-methods themselves.
+reopen` calls on a fresh executor, `root` is `computeStateRoot`, `executeTxs`, `initChain`, `setFinal`
+are the methods themselves.
 
 `writes ops` (defined in `Proofs.C15`) lists the key/value writes that reach the hashed key space:
-for `exec txs` the staged writes of the block if `stage txs` succeeds (else none), for `final h` with
-`h ≠ 0` the single write `("/finalizedHeight", dec h)`, for every other call none.
+for `exec txs` the staged writes of the block if `stage txs` succeeds (else none), for every other call
+– `SetFinal` included – none.
+
+History: until /repo commit 511b618 `SetFinal` wrote `/finalizedHeight` into the hashed key space and
+§1 was false (`[final 1, exec x=1]` vs `[exec x=1]`); the key is now reserved like the genesis keys.
 -/
 namespace Spec.C15
 open KVExec
@@ -29,15 +32,6 @@ def executedTxs : List Op → List Bytes
 /-- the root a fresh executor returns after executing exactly these transactions -/
 def rootOf (txs : List Bytes) : Bytes := root (executeTxs {} txs).1.store
 
-def isFinal : Op → Bool
-  | .final _ => true
-  | _ => false
-
-/-- a history without `SetFinal` -/
-def noFinal (ops : List Op) : Prop := ∀ op ∈ ops, isFinal op = false
-
-instance (ops : List Op) : Decidable (noFinal ops) := by unfold noFinal; infer_instance
-
 /-- the error a transaction is rejected with, if any -/
 def parseErr (tx : Bytes) : Option Err :=
   match parseTx tx with
@@ -46,88 +40,99 @@ def parseErr (tx : Bytes) : Option Err :=
 
 /-- operations that are not executions: erasing them must not change the root -/
 def isPassive : Op → Bool
-  | .init | .inject _ | .getTxs | .reopen => true
+  | .init | .final _ | .inject _ | .getTxs | .reopen => true
   | _ => false
 
-/-! ## 1. what the root is a function of -/
+/-! ## 1. the root depends only on the executed transactions (full, every history) -/
 
-/-- **Full, every history.**  The root after any interleaving of init / execute / finalize / inject /
-getTxs / reopen is the root of the key/value writes of the executed blocks *plus one write of
-`/finalizedHeight` per successful `SetFinal`* – nothing else (not the mempool, not restarts, not
-InitChain) enters it.  This is exactly what the code guarantees and it names the defect. -/
+/-- The root after any interleaving of init / execute / finalize / inject / getTxs / reopen is the root
+of the key/value writes of the executed blocks – nothing else (not finalize, not the mempool, not
+restarts, not InitChain) enters it. -/
 theorem C15_root_is_function_of_writes (ops : List Op) :
     root (run ops).store = rootRaw (applyWrites (writes ops) []) := by
   unfold root run
   rw [foldl_user ops sorted_nil]
   rfl
 
-/-- The property as stated: the root is a function of the executed transactions only. -/
-def C15_root_depends_only_on_executed_txs : Prop :=
-  ∀ ops : List Op, root (run ops).store = rootOf (executedTxs ops)
-
-/-- … in its two-instance form: same executed transactions ⇒ same root. -/
-def C15_two_instances_agree : Prop :=
-  ∀ ops₁ ops₂ : List Op, executedTxs ops₁ = executedTxs ops₂ → root (run ops₁).store = root (run ops₂).store
-
-/-- `"x=1"` -/
-def txX1 : Bytes := [120, 61, 49]
-
-/-- **False of the current code**: finalize height 1, then execute `x=1`, vs. only executing `x=1`
-(the real executors return `/finalizedHeight:1;/x:1;` and `/x:1;`). -/
-theorem C15_root_depends_only_on_executed_txs_fails : ¬ C15_root_depends_only_on_executed_txs := by
-  intro h
-  exact absurd (h [.final 1, .exec [txX1]]) (by decide)
-
-theorem C15_two_instances_agree_fails : ¬ C15_two_instances_agree := by
-  intro h
-  exact absurd (h [.final 1, .exec [txX1]] [.exec [txX1]] (by decide)) (by decide)
-
-theorem executedTxs_stage (ops : List Op) (hf : noFinal ops) : stage (executedTxs ops) = .ok (writes ops) := by
+theorem executedTxs_stage (ops : List Op) : stage (executedTxs ops) = .ok (writes ops) := by
   induction ops with
   | nil => rfl
   | cons op r ih =>
-    have hr : noFinal r := fun o ho => hf o (by simp [ho])
-    have ih' := ih hr
     cases op with
     | exec txs =>
       simp only [executedTxs, writes, List.flatMap_cons, writesOf]
       cases h : stage txs with
-      | ok ws => exact stage_append h ih'
-      | error e => simpa [writes] using ih'
-    | final h => exact absurd (hf (.final h) (by simp)) (by simp [isFinal])
-    | init => simpa [executedTxs, writes, writesOf] using ih'
-    | inject tx => simpa [executedTxs, writes, writesOf] using ih'
-    | getTxs => simpa [executedTxs, writes, writesOf] using ih'
-    | reopen => simpa [executedTxs, writes, writesOf] using ih'
+      | ok ws => exact stage_append h ih
+      | error e => simpa [writes] using ih
+    | final h => simpa [executedTxs, writes, writesOf] using ih
+    | init => simpa [executedTxs, writes, writesOf] using ih
+    | inject tx => simpa [executedTxs, writes, writesOf] using ih
+    | getTxs => simpa [executedTxs, writes, writesOf] using ih
+    | reopen => simpa [executedTxs, writes, writesOf] using ih
 
-/-- **Partial (histories without `SetFinal`), every interleaving of the remaining calls.**  The root is
-the root a fresh executor computes from the executed transactions alone. -/
-theorem C15_root_depends_only_on_executed_txs_partial (ops : List Op) (hf : noFinal ops) :
+/-- **The property as stated, every history** (any interleaving of execute, finalize, mempool
+injection, GetTxs, initialisation and reopen): the root is the root a fresh executor computes from the
+executed transactions alone. -/
+theorem C15_root_depends_only_on_executed_txs (ops : List Op) :
     root (run ops).store = rootOf (executedTxs ops) := by
   rw [C15_root_is_function_of_writes]
-  have h := executedTxs_stage ops hf
+  have h := executedTxs_stage ops
   unfold rootOf executeTxs
   simp only [h, root]
   rw [user_applyWrites (stage_not_reserved h) sorted_nil]
   rfl
 
-/-- two independently driven instances (different init / mempool / reopen timing) that executed the
-same transactions return the same root – as long as neither finalized -/
-theorem C15_two_instances_agree_partial (ops₁ ops₂ : List Op) (h₁ : noFinal ops₁) (h₂ : noFinal ops₂)
-    (h : executedTxs ops₁ = executedTxs ops₂) : root (run ops₁).store = root (run ops₂).store := by
-  rw [C15_root_depends_only_on_executed_txs_partial ops₁ h₁,
-    C15_root_depends_only_on_executed_txs_partial ops₂ h₂, h]
+/-- … in its two-instance form: two independently driven instances (different finalize / init /
+mempool / reopen timing) that executed the same transactions return the same root. -/
+theorem C15_two_instances_agree (ops₁ ops₂ : List Op) (h : executedTxs ops₁ = executedTxs ops₂) :
+    root (run ops₁).store = root (run ops₂).store := by
+  rw [C15_root_depends_only_on_executed_txs ops₁, C15_root_depends_only_on_executed_txs ops₂, h]
 
-/-- non-vacuity: a finalize-free history with init, mempool traffic, a rejected block and a reopen;
-both sides are the concrete root `/a:2;/b:1;` -/
+/-- `"x=1"` -/
+def txX1 : Bytes := [120, 61, 49]
+
+/-- non-vacuity: a history with init, finalize (before, between and after executions), mempool
+traffic, a rejected block and a reopen; both sides are the concrete root `/a:2;/b:1;` -/
 def exOps : List Op :=
-  [.init, .inject [1], .exec [[97, 61, 49], [98, 61, 49]], .reopen, .exec [[97, 61, 50], [107]],
-    .getTxs, .exec [[32, 97, 32, 61, 50]], .init]
+  [.final 4, .init, .inject [1], .exec [[97, 61, 49], [98, 61, 49]], .final 1, .reopen, .exec [[97, 61, 50], [107]],
+    .getTxs, .final 2, .exec [[32, 97, 32, 61, 50]], .init, .final 9]
 
-example : noFinal exOps ∧ root (run exOps).store = [47, 97, 58, 50, 59, 47, 98, 58, 49, 59] ∧
+example : root (run exOps).store = [47, 97, 58, 50, 59, 47, 98, 58, 49, 59] ∧
     rootOf (executedTxs exOps) = [47, 97, 58, 50, 59, 47, 98, 58, 49, 59] := by decide
 
-/-! ## 2. mempool, GetTxs, reopen and InitChain never change the root (full) -/
+/-- non-vacuity of the two-instance form on the input that used to separate the instances (finalize
+before execution on one of them): same root `/x:1;`, although the finalize did write its key -/
+example : executedTxs [.final 1, .exec [txX1]] = executedTxs [.exec [txX1]] ∧
+    root (run [.final 1, .exec [txX1]]).store = [47, 120, 58, 49, 59] ∧
+    root (run [.exec [txX1]]).store = [47, 120, 58, 49, 59] ∧
+    (run [.final 1, .exec [txX1]]).store ≠ (run [.exec [txX1]]).store := by decide
+
+/-- `SetFinal` is not a no-op: it records the height (decimal) under `/finalizedHeight`, which
+`GetStoreValue` returns – outside the root. -/
+theorem C15_setFinal_records_height_outside_root (s : St) (h : Nat) (hh : h ≠ 0) :
+    (setFinal s h).2 = none ∧ get? finalKey (setFinal s h).1.store = some (dec h) ∧
+      root (setFinal s h).1.store = root s.store := by
+  have e : setFinal s h = ({ s with store := put finalKey (dec h) s.store }, none) := by
+    unfold setFinal; rw [if_neg hh]
+  rw [e]
+  exact ⟨rfl, get?_put_same _ _ _, by unfold root; rw [user_put_reserved _ _ finalKey_reserved]⟩
+
+/-- Transactions cannot touch a reserved entry (genesis flag, genesis root, finalized height):
+whatever block is executed, accepted or rejected, the entry is what it was. -/
+theorem C15_txs_cannot_write_reserved (s : St) (txs : List Bytes) (k : Key) (hk : isReserved k = true) :
+    get? k (executeTxs s txs).1.store = get? k s.store := by
+  unfold executeTxs
+  split
+  · rfl
+  · next ws h => exact get?_applyWrites_reserved _ hk (stage_not_reserved h)
+
+example : getStoreValue (run [.exec [txX1], .final 1203]) [102, 105, 110, 97, 108] = none ∧
+    getStoreValue (run [.exec [txX1], .final 1203]) finalKey = some [49, 50, 48, 51] ∧
+    parseErr ([32] ++ finalKey ++ [47, 46, 47, 61, 55]) = some .reserved ∧
+    (executeTxs (run [.final 7]) [txX1, finalKey.tail ++ [61, 57]]).2 = .err .reserved ∧
+    getStoreValue (executeTxs (run [.final 7]) [txX1, finalKey.tail ++ [61, 57]]).1 finalKey = some [55] := by decide
+
+/-! ## 2. SetFinal, mempool, GetTxs, reopen and InitChain never change the root (full) -/
 
 /-- step form -/
 theorem C15_passive_step_keeps_root (s : St) (op : Op) (hp : isPassive op = true) (hs : Sorted s.store) :
@@ -136,8 +141,8 @@ theorem C15_passive_step_keeps_root (s : St) (op : Op) (hp : isPassive op = true
   rw [step_user op hs]
   cases op <;> simp_all [isPassive, writesOf, applyWrites]
 
-/-- history form: erasing every init / inject / getTxs / reopen call from any history (with or without
-finalize) leaves the root unchanged -/
+/-- history form: erasing every init / finalize / inject / getTxs / reopen call from any history leaves
+the root unchanged -/
 theorem C15_root_ignores_passive_ops (ops : List Op) :
     root (run (ops.filter fun op => !isPassive op)).store = root (run ops).store := by
   rw [C15_root_is_function_of_writes, C15_root_is_function_of_writes]
@@ -153,9 +158,10 @@ theorem C15_mempool_ops_keep_store (s : St) (tx : Bytes) :
   refine ⟨?_, rfl, rfl⟩
   unfold injectTx; split <;> rfl
 
-example : isPassive (.inject [1]) = true ∧ (injectTx {} [1]).mempool = [[1]] ∧
-    (getTxs (injectTx {} [1])).2 = [[1]] ∧ root (run [.exec [txX1], .inject [1], .init, .reopen]).store
-      = root (run [.exec [txX1]]).store := by decide
+example : isPassive (.inject [1]) = true ∧ isPassive (.final 5) = true ∧ (injectTx {} [1]).mempool = [[1]] ∧
+    (getTxs (injectTx {} [1])).2 = [[1]] ∧ root (run [.final 5, .exec [txX1], .inject [1], .init, .final 6, .reopen]).store
+      = root (run [.exec [txX1]]).store ∧
+    [Op.final 5, .exec [txX1], .inject [1], .init, .final 6, .reopen].filter (fun op => !isPassive op) = [.exec [txX1]] := by decide
 
 /-! ## 3. a block with a malformed transaction changes nothing (full) -/
 
@@ -238,19 +244,8 @@ theorem C15_initchain_stable (s : St) (g : Bytes) (hg : (initChain s).2 = .ok g)
     apply ih
     obtain ⟨⟨v, h1⟩, h2⟩ := inv0
     have keep : ∀ (ws : List (Key × Bytes)) (st : Store), (∀ w ∈ ws, isReserved w.1 = false) →
-        get? genInitKey (applyWrites ws st) = get? genInitKey st ∧ get? genRootKey (applyWrites ws st) = get? genRootKey st := by
-      intro ws
-      induction ws with
-      | nil => intro st _; exact ⟨rfl, rfl⟩
-      | cons w ws ihw =>
-        intro st hw
-        have hw1 := hw w (by simp)
-        have n1 : genInitKey ≠ w.1 := by intro e; rw [← e] at hw1; revert hw1; decide
-        have n2 : genRootKey ≠ w.1 := by intro e; rw [← e] at hw1; revert hw1; decide
-        have := ihw (put w.1 w.2 st) (fun w' h' => hw w' (by simp [h']))
-        show get? genInitKey (applyWrites ws (put w.1 w.2 st)) = _ ∧ get? genRootKey (applyWrites ws (put w.1 w.2 st)) = _
-        rw [this.1, this.2, get?_put_other _ _ n1, get?_put_other _ _ n2]
-        exact ⟨rfl, rfl⟩
+        get? genInitKey (applyWrites ws st) = get? genInitKey st ∧ get? genRootKey (applyWrites ws st) = get? genRootKey st :=
+      fun ws st hw => ⟨get?_applyWrites_reserved st (by decide) hw, get?_applyWrites_reserved st (by decide) hw⟩
     cases op with
     | init => simp [step, initChain, h1, h2]
     | exec txs =>
@@ -280,14 +275,16 @@ example :
 answers now (`Gen.C15`, regenerated from /repo on every run by `harness/streams/c15/facts.go`, which
 holds the same inputs as strings) -/
 
-/-- `" a/./b/../a\t=  7  "`, `"b=2"`, `"\u3000finalizedHeight/ = x=y"`, `"/=r"`, `"b=3"` -/
-def gBlock1 : List Bytes := [[32, 97, 47, 46, 47, 98, 47, 46, 46, 47, 97, 9, 61, 32, 32, 55, 32, 32], [98, 61, 50], [227, 128, 128, 102, 105, 110, 97, 108, 105, 122, 101, 100, 72, 101, 105, 103, 104, 116, 47, 32, 61, 32, 120, 61, 121], [47, 61, 114], [98, 61, 51]]
+/-- `" a/./b/../a\t=  7  "`, `"b=2"`, `"\u3000finalizedHeight/x/ = x=y"`, `"/=r"`, `"b=3"` -/
+def gBlock1 : List Bytes := [[32, 97, 47, 46, 47, 98, 47, 46, 46, 47, 97, 9, 61, 32, 32, 55, 32, 32], [98, 61, 50], [227, 128, 128, 102, 105, 110, 97, 108, 105, 122, 101, 100, 72, 101, 105, 103, 104, 116, 47, 120, 47, 32, 61, 32, 120, 61, 121], [47, 61, 114], [98, 61, 51]]
 /-- `"c=1"`, `"genesis/../genesis//stateroot=1"` (rejected: reserved key) -/
 def gBlock2 : List Bytes := [[99, 61, 49], [103, 101, 110, 101, 115, 105, 115, 47, 46, 46, 47, 103, 101, 110, 101, 115, 105, 115, 47, 47, 115, 116, 97, 116, 101, 114, 111, 111, 116, 61, 49]]
-/-- `"novalue"`, `" \t=v"`, `"genesis/./initialized = 1"` -/
-def gBad : List Bytes := [[110, 111, 118, 97, 108, 117, 101], [32, 9, 61, 118], [103, 101, 110, 101, 115, 105, 115, 47, 46, 47, 105, 110, 105, 116, 105, 97, 108, 105, 122, 101, 100, 32, 61, 32, 49]]
+/-- `"novalue"`, `" \t=v"`, `"genesis/./initialized = 1"`, `"\u2003./finalizedHeight/ = 9"` -/
+def gBad : List Bytes := [[110, 111, 118, 97, 108, 117, 101], [32, 9, 61, 118], [103, 101, 110, 101, 115, 105, 115, 47, 46, 47, 105, 110, 105, 116, 105, 97, 108, 105, 122, 101, 100, 32, 61, 32, 49], [226, 128, 131, 46, 47, 102, 105, 110, 97, 108, 105, 122, 101, 100, 72, 101, 105, 103, 104, 116, 47, 32, 61, 32, 57]]
 /-- `"//a/./a/"` -/
 def gGetKey : Bytes := [47, 47, 97, 47, 46, 47, 97, 47]
+/-- `"finalizedHeight/"` -/
+def gFinalGetKey : Bytes := [102, 105, 110, 97, 108, 105, 122, 101, 100, 72, 101, 105, 103, 104, 116, 47]
 
 def errCode : Res → Nat
   | .ok _ => 0
@@ -303,11 +300,14 @@ theorem golden_rejected_block :
     root (run [.exec gBlock1, .init, .exec gBlock2]).store = Gen.C15.rootAfterRejectedBlock2 := by decide
 theorem golden_root_after_final :
     root (run [.exec gBlock1, .init, .exec gBlock2, .final 1203]).store = Gen.C15.rootAfterFinal1203 := by decide
+theorem golden_final_stored :
+    getStoreValue (run [.exec gBlock1, .init, .exec gBlock2, .final 1203]) gFinalGetKey = some Gen.C15.finalizedValue ∧
+    Gen.C15.rootAfterFinal1203 = Gen.C15.rootAfterRejectedBlock2 := by decide
 theorem golden_final_zero : (if (setFinal {} 0).2.isSome then 1 else 0) = Gen.C15.finalZeroRejected := by decide
 theorem golden_genesis_root_again :
     (initChain (run [.exec gBlock1, .init, .exec gBlock2, .final 1203, .final 0])).2 = .ok Gen.C15.genesisRootAgain := by decide
 theorem golden_bad_txs :
-    gBad.map (fun tx => errCode (executeTxs {} [tx]).2) = [Gen.C15.badTxError1, Gen.C15.badTxError2, Gen.C15.badTxError3] := by decide
+    gBad.map (fun tx => errCode (executeTxs {} [tx]).2) = [Gen.C15.badTxError1, Gen.C15.badTxError2, Gen.C15.badTxError3, Gen.C15.badTxError4] := by decide
 theorem golden_get : getStoreValue (run [.exec gBlock1]) gGetKey = some Gen.C15.valueOfAA := by decide
 theorem golden_constants :
     mempoolCap = Gen.C15.mempoolCapacity ∧ gasConst = Gen.C15.gasExecute ∧ gasConst = Gen.C15.gasInit := by decide
